@@ -72,6 +72,7 @@ def generate(seed, tier):
     if rw.random() < 0.15:
         data["recipe"] = rw.choice(["zeros", "const", "impulses"])
     cfg = SC.gen_config(rw, N, backends=("numba", "numba", "numpy", "auto"), allow_band=True)
+    cfg["layout"] = rw.choice(SC.LAYOUTS)      # how a two-channel record is handed over (2xN, its transposed view, a list of rows)
     kind = rw.choice(["full", "full", "full", "single", "band1", "band2"])
     sc = {"data": data, "cfg": cfg, "kind": kind, "clock": CK.gen_clock(R.stream(seed, "clock"))}
     if kind == "single":
